@@ -127,7 +127,7 @@ CLAIMED = {
          "vm_compute; crash-point correspondence harness + oracle"),
  "C16": ("Store model (LRU, RollingIndex with roll, InmemStore, BadgerStore as cache+DB) proved to refine a plain map for all operation sequences and all cache "
          "sizes under the admission discipline, also across reopen; cache coherence unconditionally; listings exact; the deviations of the real store from a "
-         "plain map are proved as refutation witnesses (W1-W5). Tied to the code by replaying every operation of generated sequences on the real BadgerStore",
+         "plain map are proved as refutation witnesses (W1-W5). Tied to the code by replaying every operation of generated sequences on the real BadgerStore, and by replaying the complete store traffic of a real node core (BadgerStore, caches 3..10000, late block signatures, snapshots and close/reopen) in seeded gossip histories on the model, with a plain-map oracle of the last acknowledged write per key",
          "13 theorems, no axioms; Badger atomicity/durability and codecs assumed (C15); Reset/Bootstrap out of this model (C11/C13)",
          "Coq refinement proof (simulation relation) + operation-level correspondence with the real BadgerStore"),
  "C01": ("PROVED in Coq for static membership (C01_agreement, C01_agreement_prefix): for any two nodes reachable by any operation sequences (insertions in any order incl. "
